@@ -116,6 +116,19 @@ def gen_descs(g, tier):
     for kind in OBJS:
         for _ in range(1 if q else 10):
             out.append(gen_obj(g, kind))
+    # the same jitted function applied to two different objects of one class (and one shape): no conflation
+    for cls in ("full", "diag", "ident", "nn"):
+        for _ in range(1 if q else 6):
+            R, Dy, Dx = g.randint(1, 2), g.randint(1, 2), g.randint(1, 2)
+            c1 = lin.gen_cond(g, cls, R, Dy, Dx, ctor="Sigma"); c2 = lin.gen_cond(g, cls, R, Dy, Dx, ctor="Sigma")
+            if cls == "nn":
+                c2["Du"] = c1["Du"]; c2["W"] = g.mat(c1["Du"], c1["Dy"] * (c1["Dx"] + 1)); c2["u"] = g.mat(lin.cond_R(c1), c1["Du"])
+                out2 = [[sum(c2["u"][r][k] * c2["W"][k][j] for k in range(c2["Du"])) + c2["c0"][j] for j in range(c1["Dy"] * (c1["Dx"] + 1))] for r in range(lin.cond_R(c1))]
+                c2["M"] = [[[out2[r][i * c1["Dx"] + j] for j in range(c1["Dx"])] for i in range(c1["Dy"])] for r in range(lin.cond_R(c1))]
+                c2["b"] = [out2[r][c1["Dy"] * c1["Dx"]:] for r in range(lin.cond_R(c1))]
+            if c1.get("b") is None or c2.get("b") is None:
+                c1["b"] = g.mat(R, c1["Dy"]) if cls in ("full", "diag") else c1.get("b"); c2["b"] = g.mat(R, c1["Dy"]) if cls in ("full", "diag") else c2.get("b")
+            out.append(dict(scn="jit2", c1=c1, c2=c2, xs=g.mat(2, c1["Dx"]), ys=g.mat(2, c1["Dy"])))
     return [C.J(d) for d in out]
 
 
@@ -123,9 +136,9 @@ def search_descs(g, failing, tier):
     return [C.J(gen_obj(g, k)) for k in OBJS] + [C.J(gen_pipe(g, p)) for p in PIPES]
 
 
-hist = lambda d: dict(scn=d["scn"], what=d.get("pipe") or d.get("kind"))
+hist = lambda d: dict(scn=d["scn"], what=d.get("pipe") or d.get("kind") or d["c1"]["cls"])
 nontrivial = lambda d: True
-scenario = lambda d: "%s:%s" % (d["scn"], d.get("pipe") or d.get("kind"))
+scenario = lambda d: "%s:%s" % (d["scn"], d.get("pipe") or d.get("kind") or d["c1"]["cls"])
 
 
 # ------------------------------------------------------------------ pipelines as functions of arrays
@@ -298,6 +311,9 @@ def coq_rt(d):
 
 def coq_term(d):
     d = C.U(d)
+    if d["scn"] == "jit2":
+        # the second object conditioned on x, evaluated at y (what the jitted function must return for it)
+        return "obs_ueval (condition_on_x %s (lxs %s)) %s" % (lin.coq_cond(d["c2"]), cmat(d["xs"]), cmat(d["ys"]))
     return coq_pipe(d) if d["scn"] == "pipe" else coq_rt(d)
 
 
@@ -321,6 +337,32 @@ def run_impl(d):
     d = C.U(d)
     I = gtlib.impl(); jax = I["jax"]; jnp = I["jnp"]
     ob = Obs(); fails = []
+    if d["scn"] == "jit2":
+        o1, kw1 = lin.impl_cond(d["c1"]); o2, kw2 = lin.impl_cond(d["c2"])
+        xs = jarr(d["xs"]); ys = jarr(d["ys"])
+        nn = d["c1"]["cls"] == "nn"
+        if nn:
+            f = lambda o, x, y, u: o.condition_on_x_u(x, u).evaluate_ln(y)
+            eager2 = np.asarray(f(o2, xs, ys, kw2["u"]), dtype=float)
+            jf = jax.jit(f)
+            try:
+                j1 = np.asarray(jf(o1, xs, ys, kw1["u"]), dtype=float); j2 = np.asarray(jf(o2, xs, ys, kw2["u"]), dtype=float)
+                lin.chk(fails, ["C18"], "jitted function returns another object's values (second call)", "jit:nn", j2, eager2)
+                lin.chk(fails, ["C18"], "jitted function differs from eager (first call)", "jit:nn", j1, np.asarray(f(o1, xs, ys, kw1["u"]), dtype=float))
+            except Exception as e:
+                fails.append(lin.fail(["C18"], "jit with an object argument raises %s: %s" % (type(e).__name__, str(e)[:120]), "jit:nn"))
+        else:
+            f = lambda o, x, y: o.condition_on_x(x).evaluate_ln(y)
+            eager2 = np.asarray(f(o2, xs, ys), dtype=float)
+            jf = jax.jit(f)
+            try:
+                j1 = np.asarray(jf(o1, xs, ys), dtype=float); j2 = np.asarray(jf(o2, xs, ys), dtype=float)
+                lin.chk(fails, ["C18"], "jitted function returns another object's values (second call)", "jit:" + d["c1"]["cls"], j2, eager2)
+                lin.chk(fails, ["C18"], "jitted function differs from eager (first call)", "jit:" + d["c1"]["cls"], j1, np.asarray(f(o1, xs, ys), dtype=float))
+            except Exception as e:
+                fails.append(lin.fail(["C18"], "jit with an object argument raises %s: %s" % (type(e).__name__, str(e)[:120]), "jit:" + d["c1"]["cls"]))
+        ob.add("eager(second object)", eager2)
+        return ob, fails
     if d["scn"] == "rt":
         o = build_obj(d)
         ref = observe(o, d)
